@@ -100,6 +100,46 @@ def isCall : Ev → Bool
 /-- number of completed calls -/
 def calls (evs : List Ev) : Nat := (evs.filter isCall).length
 
+/-! ### several systems
+
+Each system owns its clock buffer: `b.systime = a.systime` (`_t.copy_`), `b.reset(a.systime)` (`_t.fill_`) and
+`ltv.set_refpoint(t=a.systime)` *copy the value* the other clock has at that moment; nothing is shared afterwards. -/
+
+inductive MEv
+  | own (e : Ev)                -- an event with a literal time
+  | assignFrom (j : Nat)        -- `sys_i.systime = sys_j.systime`
+  | resetFrom (j : Nat)         -- `sys_i.reset(sys_j.systime)`
+  | refFrom (j : Nat)           -- `sys_i.set_refpoint(t=sys_j.systime)`
+deriving Repr, Inhabited
+
+/-- the plain clock event a tagged event amounts to, given all clocks now -/
+def MEv.toEv (cs : List Int) : MEv → Ev
+  | .own e => e
+  | .assignFrom j => .assign ⟨cs.getD j 0, 1⟩
+  | .resetFrom j => .reset ⟨cs.getD j 0, 1⟩
+  | .refFrom j => .refpoint (some ⟨cs.getD j 0, 1⟩)
+
+/-- event `te.2` happens on system `te.1` -/
+def stepMulti (ks : List Kind) (cs : List Int) (te : Nat × MEv) : List Int :=
+  cs.set te.1 (stepClock (ks.getD te.1 .lti) (cs.getD te.1 0) (te.2.toEv cs))
+
+def runMulti (ks : List Kind) (cs : List Int) (evs : List (Nat × MEv)) : List Int :=
+  evs.foldl (stepMulti ks) cs
+
+/-- all clocks after each event -/
+def traceMulti (ks : List Kind) (cs : List Int) : List (Nat × MEv) → List (List Int)
+  | [] => []
+  | te :: r => stepMulti ks cs te :: traceMulti ks (stepMulti ks cs te) r
+
+/-- the same history with every "from system j" replaced by the literal value `j`'s clock had then -/
+def resolveMulti (ks : List Kind) (cs : List Int) : List (Nat × MEv) → List (Nat × Ev)
+  | [] => []
+  | te :: r => (te.1, te.2.toEv cs) :: resolveMulti ks (stepMulti ks cs te) r
+
+/-- the events of system `i` -/
+def projEv (i : Nat) (l : List (Nat × Ev)) : List Ev :=
+  l.filterMap fun te => if te.1 = i then some te.2 else none
+
 /-! ## 2. LTI / LTV -/
 
 /-- A linear system with (possibly) stacked, time indexed matrices.  `slices = 1`, `kind = lti` is `LTI`. -/
